@@ -333,8 +333,101 @@ Proof. intros. apply quartic_closed_deriv. exact H. Qed.
     return "\n".join(out)
 
 
+
+def destr(var, names):
+    """intro pattern destructing a list into exactly len(names) elements"""
+    pat = "[|x_ r_]"
+    for n in reversed(names):
+        pat = "[|%s %s]" % (n, pat)
+    return "destruct %s as %s; cbn [length] in *; try discriminate; try lia" % (var, pat)
+
+
+def gen_c11():
+    out = []
+    out.append('''(* C11 - piecewise integration is continuous at breakpoints and is the true integral.
+   Generic theorems about the knot-threading iteration (proofs/IntegralProofs.v) instantiated, per piece type,
+   with the real-number semantics of the regenerated Segment<T> kernels. *)
+From Coq Require Import List ZArith Reals Lra Lia.
+Require Import PP.Expr PP.RealOps PP.PolyFacts PP.Model.PwModel PP.Proofs.IntegralProofs PP.Gen.Kernels.
+Import ListNotations.
+Local Open Scope R_scope.
+
+(* a segment is (end, numbers of the piece); segment-level kernels take [end; numbers...; extra inputs] *)
+Definition kseg (k : list expr) (s : R * list R) (extra : list R) : R * list R :=
+  let o := evals ROps (fst s :: snd s ++ extra) k in (hd 0 o, tl o).
+Definition kev (k : list expr) (F : R * list R) (t : R) : R := hd 0 (evals ROps (fst F :: snd F ++ [t]) k).
+
+Ltac kred := unfold kseg, kev; cbn [fst snd app hd tl]; reval; norm_lits; cbn [fst snd app hd tl]; reval.
+''')
+    types = []
+    for K in range(8):
+        types.append(("Poly%d" % K, "P%d" % K, K + 1, "k_Segment_Poly%d__integral" % K, "k_Segment_Poly%d__indefinite" % K,
+                      "k_Segment_Poly%d__evaluate" % (K + 1)))
+    for K in range(9):
+        ev = "k_Segment_IntOfLogPoly4__evaluate" if K == 4 else "k_Segment_IntOfLog_Poly%d__evaluate" % K
+        types.append(("Log<Poly%d>" % K, "L%d" % K, K + 1, "k_Segment_Log_Poly%d__integral" % K, "k_Segment_Log_Poly%d__indefinite" % K, ev))
+    for (tn, tag, n, kint, kind, kevn) in types:
+        names = ["c%d" % i for i in range(n)]
+        d = destr("cs", names)
+        fin = "field" if tn.startswith("Poly") or tn == "Log<Poly4>" else "ring"
+        out.append('''(* ---------------- {tn} ---------------- *)
+Definition wf_{tag} (s : R * list R) : Prop := length (snd s) = {n}%nat.
+Definition sint_{tag} (s : R * list R) (k : R * R) := kseg {kint} s [fst k; snd k].
+Definition sind_{tag} (s : R * list R) := kseg {kind} s [].
+Definition evI_{tag} := kev {kevn}.
+Lemma C11_{tag}_S1 : forall s k, wf_{tag} s -> fst (sint_{tag} s k) = fst s.
+Proof. intros [e cs] [kx ky] H. unfold wf_{tag} in H. cbn [snd] in H. {d}. unfold sint_{tag}, {kint}. kred. reflexivity. Qed.
+Lemma C11_{tag}_S1i : forall s, wf_{tag} s -> fst (sind_{tag} s) = fst s.
+Proof. intros [e cs] H. unfold wf_{tag} in H. cbn [snd] in H. {d}. unfold sind_{tag}, {kind}. kred. reflexivity. Qed.
+Lemma C11_{tag}_S2 : forall s k, wf_{tag} s -> evI_{tag} (sint_{tag} s k) (fst k) = snd k.
+Proof.
+  intros [e cs] [kx ky] H. unfold wf_{tag} in H. cbn [snd] in H. {d}.
+  unfold evI_{tag}, sint_{tag}, {kint}. kred. unfold {kevn}. kred. {fin}.
+Qed.
+Lemma C11_{tag}_S3 : forall s k, wf_{tag} s -> exists c, forall t, evI_{tag} (sint_{tag} s k) t = evI_{tag} (sind_{tag} s) t + c.
+Proof.
+  intros [e cs] [kx ky] H. unfold wf_{tag} in H. cbn [snd] in H. {d}.
+  exists (ky - evI_{tag} (sind_{tag} (e, [{lst}])) kx). intros t.
+  unfold evI_{tag}, sint_{tag}, sind_{tag}, {kint}, {kind}. kred. unfold {kevn}. kred. {fin}.
+Qed.
+(* same breakpoints; first piece through the knot; adjacent pieces agree at every interior breakpoint; every piece is
+   the indefinite integral of its source piece plus a constant; the telescoped value formula *)
+Theorem C11_{tag} : forall (segs : list (R * list R)) (k0 : R * R), List.Forall wf_{tag} segs ->
+  let r := integral_iter sint_{tag} evI_{tag} segs k0 in
+  map fst r = map fst segs /\\
+  (forall l F G r', r = l ++ F :: G :: r' -> evI_{tag} G (fst F) = evI_{tag} F (fst F)) /\\
+  List.Forall2 (fun s F => exists c, forall t, evI_{tag} F t = evI_{tag} (sind_{tag} s) t + c) segs r /\\
+  List.Forall2 (fun (sk : (R * list R) * (R * R)) F => forall t,
+                  evI_{tag} F t = snd (snd sk) + (evI_{tag} (sind_{tag} (fst sk)) t - evI_{tag} (sind_{tag} (fst sk)) (fst (snd sk))))
+               (combine segs (knot_seq _ _ sind_{tag} evI_{tag} segs k0)) r.
+Proof.
+  intros segs k0 H. cbv zeta. repeat split.
+  - apply iter_ends with (wf := wf_{tag}); [exact C11_{tag}_S1|exact H].
+  - apply iter_continuous with (wf := wf_{tag}); [exact C11_{tag}_S2|exact H].
+  - exact (@iter_antiderivative _ _ sint_{tag} sind_{tag} evI_{tag} wf_{tag} C11_{tag}_S3 segs k0 H).
+  - exact (@iter_telescope _ _ sint_{tag} sind_{tag} evI_{tag} wf_{tag} C11_{tag}_S1 C11_{tag}_S2 C11_{tag}_S3 segs k0 H).
+Qed.
+Theorem C11_{tag}_first : forall s r k0, wf_{tag} s ->
+  match integral_iter sint_{tag} evI_{tag} (s :: r) k0 with F :: _ => evI_{tag} F (fst k0) = snd k0 | [] => False end.
+Proof. intros. apply iter_first with (wf := wf_{tag}); [exact C11_{tag}_S2|assumption]. Qed.
+Theorem C11_{tag}_indefinite : forall s s2 r, wf_{tag} s -> wf_{tag} s2 -> List.Forall wf_{tag} r ->
+  match pw_indefinite sint_{tag} sind_{tag} evI_{tag} (s :: s2 :: r) with
+  | F0 :: F1 :: _ => F0 = sind_{tag} s /\\ evI_{tag} F1 (fst F0) = evI_{tag} F0 (fst F0)
+  | _ => False end.
+Proof.
+  intros s s2 r Hs Hs2 Hr. split; [reflexivity|].
+  apply indefinite_continuous with (wf := wf_{tag}) (r := r); [exact C11_{tag}_S2|exact Hs|exact Hs2|exact Hr].
+Qed.
+'''.format(tn=tn, tag=tag, n=n, kint=kint, kind=kind, kevn=kevn, d=d, fin=fin, lst="; ".join(names)))
+    out.append('''
+Theorem C11_indefinite_empty : forall (P PI : Type) si sd (ev : R * PI -> R -> R), @pw_indefinite R P PI si sd ev [] = [].
+Proof. reflexivity. Qed.
+''')
+    return "\n".join(out)
+
+
 if __name__ == "__main__":
     which = sys.argv[1]
-    text = {"C01": gen_c01, "C08": gen_c08, "C07": gen_c07, "C09": gen_c09}[which]()
+    text = {"C01": gen_c01, "C08": gen_c08, "C07": gen_c07, "C09": gen_c09, "C11": gen_c11}[which]()
     open("/verif/coq/props/%s.v" % which, "w").write(text)
     print("wrote", which, len(text))
